@@ -172,3 +172,13 @@ impl StreamContextInner {
             .expect("The environment has already been started, cannot access the scheduler")
     }
 }
+
+#[cfg(feature = "verif")]
+impl StreamContext {
+    /// The execution graph this host derives for the registered job (no worker is started).
+    pub fn verif_execution_graph(self) -> crate::verif::graph::GraphDump {
+        let mut env = self.inner.lock();
+        let scheduler = env.scheduler.take().unwrap();
+        scheduler.verif_graph(env.block_count)
+    }
+}
